@@ -293,5 +293,10 @@ func runC01() {
 		if i%12 == 5 {
 			aggExpireScenario(rnd.Fork())
 		}
+		// re-lock calls over keys the transaction holds that fail and are retried (family of c06.go): the held locks stay
+		if i%6 == 2 {
+			relockScenario(rnd.Fork())
+			rec.Count("c01:family:relock")
+		}
 	}
 }
